@@ -26,6 +26,73 @@ def rules(ctx):
     c112(ctx)
     c113(ctx)
     c114(ctx)
+    c115(ctx)
+    c116(ctx)
+
+
+def c115(ctx):
+    R = "C11.5"
+    ctx.declare(R, "bounds cursor: forward and backward steps are mirror images — both bounds are re-checked after every inner step, in a loop")
+    B = "<sst::bounds_cursor::BoundsCursor as sst::Cursor>::"
+    checks = {}
+    for m in ("next", "prev"):
+        f = ctx.fn(R, B + m)
+        if not f:
+            continue
+        mv = [pt for name, pt in cursor_calls(f) if name == m]
+        st = P.call_points(f, r"BoundsCursor::check_for_start_bound_exceeded$")
+        en = P.call_points(f, r"BoundsCursor::check_for_end_bound_exceeded$")
+        checks[m] = (bool(st), bool(en))
+        ctx.check(R, f, "inner-step", len(mv) == 1, "%s advances the wrapped cursor with %s" % (m, m), "%s has %d inner %s steps" % (m, len(mv), m))
+        ctx.check(R, f, "both-bounds", bool(st) and bool(en), "%s re-checks the start and the end bound" % m,
+                  "%s re-checks only %s: stepping from outside the other bound yields out-of-range keys" % (m, "the start bound" if st else "the end bound" if en else "no bound"))
+        for p_ in mv:
+            for label, pts in (("start", st), ("end", en)):
+                if pts:
+                    q = P.reach(f, P.after(f, p_), P.return_points(f), avoid=set(pts) | set(P.error_points(f)))
+                    ctx.check(R, f, "check-after-step:" + label, q is None, "every inner step is followed by the %s-bound check" % label,
+                              "an inner step can return without the %s-bound check" % label, pt=p_, path=q)
+            ctx.check(R, f, "step-loop", P.reach(f, P.after(f, p_), [p_]) is not None, "%s keeps stepping while the position is outside the opposite bound" % m,
+                      "%s steps once only: a position outside the opposite bound is reported as in range" % m, pt=p_)
+    f = ctx.fn(R, B + "seek")
+    if f:
+        st = P.call_points(f, r"BoundsCursor::check_for_start_bound_exceeded$")
+        en = P.call_points(f, r"BoundsCursor::check_for_end_bound_exceeded$")
+        ctx.check(R, f, "both-bounds", bool(st) and bool(en), "seek re-checks both bounds", "seek does not re-check both bounds")
+    for name, fld in (("check_for_start_bound_exceeded", "start_bound"), ("check_for_end_bound_exceeded", "end_bound")):
+        g = ctx.fn(R, "sst::bounds_cursor::BoundsCursor::" + name)
+        if g:
+            w = P.field_writes(g, r"bounds_cursor::BoundsCursor$", "bounds")
+            reads = any(s_["k"] == "field" and s_["f"] == fld for b in P.switch_blocks(g) for s_ in K.cond_sources(g, b.idx))
+            ctx.check(R, g, "reads-own-bound", bool(w) and reads, "%s compares with self.%s and updates self.bounds" % (name, fld), "%s does not use self.%s" % (name, fld))
+
+
+def c116(ctx):
+    R = "C11.6"
+    ctx.declare(R, "concatenating cursor: after every movement the current child is positioned, or there is no further child in that direction")
+    Cc = "<sst::concat_cursor::ConcatenatingCursor as sst::Cursor>::"
+    for m in ("seek", "next", "prev"):
+        f = ctx.fn(R, Cc + m)
+        if not f:
+            continue
+        mv = [pt for name, pt in cursor_calls(f) if name == m]
+        ctx.floor(R, f.skey + " child " + m, len(mv), 1)
+        # exhaustion tests: child.key() feeding is_none()/is_some()
+        tests = []
+        for b, t in f.calls():
+            if re.search(r"core::option::Option::(is_none|is_some)$", callee_skey(t) or ""):
+                if any(s_["k"] == "call" and re.search(r"Cursor>?::key$", s_["callee"]) for s_ in P.origins(f, t["args"][0])):
+                    tests.append(P.term_pt(f, b.idx))
+        rp = P.call_points(f, r"ConcatenatingCursor::reposition$")
+        for p_ in mv:
+            q = P.reach(f, P.after(f, p_), P.return_points(f), avoid=set(tests) | set(P.error_points(f)))
+            ctx.check(R, f, "exhaustion-test-after-move", q is None and bool(tests),
+                      "after moving the child with %s, the cursor tests key() for exhaustion before returning" % m,
+                      "%s returns right after moving the child: if that child has nothing (more) in this direction the concatenation reports the end "
+                      "although a neighbouring child has entries" % m, pt=p_, path=q)
+        # an exhausted child leads to the neighbour: some reposition is reachable from an exhaustion test
+        ok = any(P.reach(f, P.after(f, t_), rp) is not None for t_ in tests) if tests else False
+        ctx.check(R, f, "moves-to-neighbour", ok, "an exhausted child is followed by reposition() to its neighbour", "%s never moves on from an exhausted child" % m)
 
 
 def key_some_guard(f, pt, recv_names):
